@@ -53,7 +53,7 @@ EXCS = {
     10: ('StopIteration', [5]), 11: ('GeneratorExit', []),
 }
 # sys.exit argument universe: id -> python value
-EXITS = {0: None, 1: 0, 2: 3, 3: 1, 4: 'bye', 5: 255, 6: 77, 7: '', 8: 256, 9: 2, 10: -1}
+EXITS = {0: None, 1: 0, 2: 3, 3: 1, 4: 'bye', 5: 255, 6: 77, 7: '', 8: 256, 9: 2, 10: -1, 11: True, 12: False, 13: 2.5}
 
 
 class CustomError(Exception):
@@ -482,7 +482,7 @@ def model_lines(cid, case, res):
         o = f'raise:{99 if oc[1] == "killonpickle" else oc[1]}'
     else:
         x = EXITS[oc[1]]
-        o = 'exit:none' if x is None else (f'exit:int:{x}' if isinstance(x, int) else f'exit:str:{oc[1]}')
+        o = 'exit:none' if x is None else (f'exit:int:{int(x)}' if isinstance(x, int) else f'exit:str:{oc[1]}')
     k = case.get('kill')
     if k and k['phase'] == 'random':
         ph = res.get('resolved_phase') or 'during'
@@ -508,7 +508,7 @@ def _model_form(case, r):
             return pre + 'child:' + ('99' if r.endswith('killonpickle') else r.split(':')[-1])
         if r.startswith(pre + 'sysexit:'):
             x = EXITS[int(r.split(':')[-1])]
-            return pre + ('sysexit:none' if x is None else (f'sysexit:int:{x}' if isinstance(x, int) else f'sysexit:str:{r.split(":")[-1]}'))
+            return pre + ('sysexit:none' if x is None else (f'sysexit:int:{int(x)}' if isinstance(x, int) else f'sysexit:str:{r.split(":")[-1]}'))
         if r.startswith(pre + 'v'):
             return pre + r[len(pre) + 1:]
     return r.replace(' ', '_')
